@@ -144,6 +144,8 @@ def object_ids(soup):
     ids = set()
 
     def walk(e):
+        if type(e) is str:          # immutable (and interned by the interpreter): not state
+            return
         ids.add(id(e))
         if isinstance(e, D.TexExpr):
             ids.add(id(e._contents))
@@ -159,6 +161,33 @@ def object_ids(soup):
                 walk(c)
     walk(soup.expr)
     return ids
+
+
+def iso_doc(rg):
+    """documents for the isolation histories: every command of the signature table (argument-less ones included),
+    math regions, lists, verbatim, on top of oracles.mini_doc"""
+    from TexSoup.reader import SIGNATURES
+    sig = sorted(SIGNATURES)
+    parts = []
+    for _ in range(rg.randint(1, 4)):
+        k = rg.randrange(7)
+        if k == 0:
+            parts.append(oracles.mini_doc(rg, 2))
+        elif k == 1:
+            n = rg.choice(sig)
+            parts.append('\\%s%s ' % (n, rg.choice(['', '{u}', '{u}{v}', '[o]{u}', ' {u}'])))
+        elif k == 2:
+            n = rg.choice(sig)
+            parts.append('$a \\%s b \\%s$ ' % (n, rg.choice(sig)))
+        elif k == 3:
+            parts.append('\\begin{itemize}\\item p \\%s q\\item[r] s\\end{itemize}' % rg.choice(sig))
+        elif k == 4:
+            parts.append('\\begin{verbatim}\\x{\\end{verbatim}')
+        elif k == 5:
+            parts.append('\\[ x \\%s y \\] ' % rg.choice(sig))
+        else:
+            parts.append('{\\%s w} ' % rg.choice(sig))
+    return ''.join(parts)
 
 
 def interleave(s1, s2, rg):
@@ -183,10 +212,17 @@ def interleave(s1, s2, rg):
     # edit a in several ways
     from TexSoup.data import TexNode
     nodes = [n for n in a.descendants if isinstance(n, TexNode)]
-    for n in nodes[:6]:
-        op = rg.randrange(4)
+    rg.shuffle(nodes)
+    for n in nodes[:8]:
+        op = rg.randrange(7)
         try:
-            if op == 0:
+            if op == 4 and hasattr(n.expr, 'args'):
+                n.args.append('{S}')
+            elif op == 5 and hasattr(n.expr, 'args'):
+                n.args.insert(0, '[T]')
+            elif op == 6 and hasattr(n.expr, 'args'):
+                n.args.extend(['{U}', '{V}'])
+            elif op == 0:
                 n.delete()
             elif op == 1 and n.expr.__class__.__name__ in ('TexCmd', 'TexNamedEnv'):
                 n.name = 'renamed'
@@ -240,8 +276,9 @@ def oracle(ctx, seeds, scale):
             r.fail('hashseed-dependent', 'result depends on PYTHONHASHSEED', input=s)
     # interleavings and isolation: every case in a freshly forked child, so that no state left behind by
     # another case (or by this process) can hide an influence
-    docs = [oracles.mini_doc(rg, 3) for _ in range(ctx.pick(150, 2000))]
+    docs = [oracles.mini_doc(rg, 3) if i % 2 else iso_doc(rg) for i in range(ctx.pick(240, 2400))]
     pairs = [(s1, s2, rg.randrange(1 << 30)) for s1, s2 in zip(docs, docs[1:])]
+    pairs += [(s1, s1, rg.randrange(1 << 30)) for s1 in docs[::6]]        # the same source twice
     os.environ['REPO'] = common.REPO
     import multiprocessing as mp
     # 'spawn': fresh interpreters - this process may itself have parsed with other options already
